@@ -24,6 +24,12 @@ def observe(run, st):
             except Exception as ex:
                 got[typ] = f"raises {type(ex).__name__}"
     st["extra"]["via_object"] = got
+    # what the open object remembers besides the compared table fields: every entry's last-access date and the header
+    try:
+        st["extra"]["adates"] = [C.ts(e.last_access_date) for e in run.t.entries]
+        st["extra"]["header"] = (int(run.t.version), int(run.t.nEntries), C.ts(run.t.creation_date), C.ts(run.t.last_modification_date), C.ts(run.t.last_access_date))
+    except Exception as ex:
+        st["extra"]["adates"] = f"raises {type(ex).__name__}"
 
 
 def judge(ctx, r):
@@ -46,6 +52,19 @@ def judge(ctx, r):
         if free_disk != free_mem:
             ctx.fail(f"{r.desc} step {i} {s['op']}: unused slots in memory and on disk differ", rep, ident="free slots != disk after " + s["op"][0])
             return
+        ad = s["extra"].get("adates")
+        if ad is not None:
+            import struct
+            n_disk = struct.unpack_from("<i", s["after"], 20)[0]
+            disk_ad = [struct.unpack_from("<i", s["after"], 64 + 288 * k + 24)[0] for k in range(n_disk)]
+            if ad != disk_ad:
+                ctx.fail(f"{r.desc} step {i} {s['op']}: last-access dates of the table entries in memory {ad} and on disk {disk_ad} differ right after the call", rep,
+                         ident="entry access dates != disk after " + s["op"][0])
+                return
+            hd = struct.unpack_from("<Iiii", s["after"], 16)[:2] + struct.unpack_from("<iii", s["after"], 32)
+            if s["extra"].get("header") is not None and tuple(s["extra"]["header"]) != tuple(hd):
+                ctx.fail(f"{r.desc} step {i} {s['op']}: header fields in memory {s['extra']['header']} and on disk {hd} differ", rep, ident="header != disk after " + s["op"][0])
+                return
         if s["nbytes"] != len(s["after"]):
             ctx.fail(f"{r.desc} step {i}: Tdf.nBytes {s['nbytes']} but {len(s['after'])} bytes on disk", rep, ident="nBytes != disk")
             return
